@@ -23,8 +23,9 @@ def main():
     pid = sys.argv[1]
     needs = sys.argv[2] if len(sys.argv) > 2 and not sys.argv[2].startswith('--') else ''
     suite = '--no-suite' not in sys.argv
-    wt = f'/tmp/seed/{pid}'
-    out = os.path.join(VERIF, 'seeded', f'agent-{pid}')
+    rnd = os.environ.get('SEED_ROUND', '')          # '' = first round, '2' = second round (/tmp/seed2, agent2-Cnn)
+    wt = f'/tmp/seed{rnd}/{pid}'
+    out = os.path.join(VERIF, 'seeded', f'agent{rnd}-{pid}')
     os.makedirs(out, exist_ok=True)
     rc, diff = sh('git diff -- lazy_dataset', cwd=wt)
     assert diff.strip(), 'no change in the worktree'
@@ -39,7 +40,7 @@ def main():
     res = {'demo_exit_with_change': rc_with, 'demo_exit_without_change': rc_without,
            'demo_output_with_change': out_with[-1500:]}
     if suite:
-        junit = f'/tmp/seed/{pid}.junit.xml'
+        junit = f'/tmp/seed{rnd}/{pid}.junit.xml'
         sh(f'/venv/bin/python -m pytest -q -p no:cacheprovider --timeout=900 --continue-on-collection-errors --junitxml={junit}', cwd=wt, env=env)
         base = json.load(open('/root/.vp/BASELINE.json'))
         got = {}
@@ -56,13 +57,13 @@ def main():
         try:
             props = [pid] + [p for p in sys.argv[3:] if p.startswith('C')]
             for p in props:
-                c, o = sh(f'./check {p}', cwd=VERIF)
+                c, o = sh(f'./check {p} --tier quick', cwd=VERIF, env=dict(os.environ, VERIF_SEED=os.environ.get('VERIF_SEED', '1')))
                 line = [l for l in o.splitlines() if l.startswith('VIOLATION')]
                 caught[p] = (line[0] if line else ('exit %d' % c))
         finally:
             sh('git -C /repo checkout -- .')
     res['checks'] = caught
-    meta = {'id': f'agent-{pid}', 'property': pid, 'origin': 'independent sub-agent given only the property text and a scratch worktree',
+    meta = {'id': f'agent{rnd}-{pid}', 'property': pid, 'origin': 'independent sub-agent given only the property text and a scratch worktree',
             'what': '', 'needs_to_manifest': needs, 'ran': res}
     json.dump(meta, open(os.path.join(out, 'meta.json'), 'w'), indent=1)
     print(json.dumps(res, indent=1)[:3000])
